@@ -753,6 +753,10 @@ func ParseVarDeclareStmt(p *ParserZH) *syntax.VarDeclareStmt {
 			}
 			vNode.AssignPair = append(vNode.AssignPair, assignPair)
 		})
+		// 令： must be followed by at least one declaration
+		if len(vNode.AssignPair) == 0 {
+			panic(p.getInvalidSyntaxPeek())
+		}
 	} else {
 		// #02. consume identifier declare list (comma list) inline
 		// there is ONLY ONE vdAssignPair along the statement!
